@@ -126,8 +126,19 @@ def _gen_case(rng, tier):
     # code iterates its nested dictionaries arity-major, which permutes the extendors (an order
     # the property does not constrain, but the exact tie would see it); (2) AdapterRegistry.rebuild()
     # re-runs __init__ and thereby forgets its sub-registries (defect in C05/C06's subject).
-    kinds = ["subscribe", "unsubscribe", "register", "unregister", "setregbases", "query"]
-    ws = [9, 4, 3, 1, 1.2 if n_regs > 1 else 0, 4]
+    kinds = ["subscribe", "unsubscribe", "register", "unregister", "setregbases", "query", "qmq"]
+    ws = [9, 4, 3, 1, 1.2 if n_regs > 1 else 0, 4, 3]
+    where = []     # (registry, req, provided-or-None) of every subscribe
+
+    def above(r):
+        """r and the registries r is (transitively) based on"""
+        seen, todo = [], [r]
+        while todo:
+            x = todo.pop()
+            if x not in seen:
+                seen.append(x)
+                todo.extend(cur_bases.get(x, []))
+        return seen
     for _ in range(n_mut):
         k = rng.choices(kinds, ws)[0]
         r = rng.randrange(n_regs)
@@ -140,7 +151,28 @@ def _gen_case(rng, tier):
             else:
                 req, p = fresh_key()
             keys.append((req, p))
+            where.append((r, req, p))
             ops.append(["subscribe", r, req, p, RC.gen_value(rng, 4)])
+        elif k == "qmq" and where:
+            # query -> ONE subscribe / unsubscribe of that very key -> the identical query, nothing in
+            # between: the mutation alone must invalidate whatever the first query cached, in the
+            # registry itself and in every registry based on it (handlers half of the time)
+            hs = [w for w in where if w[2] is None]
+            r0, req, p = rng.choice(hs) if hs and rng.random() < 0.5 else rng.choice(where)
+            rq = rng.choice([x for x in range(n_regs) if r0 in above(x)])
+            q = q_subscriptions(rq, (req, p))
+            ops.append(list(q))
+            u = rng.random()
+            if u < 0.4:
+                ops.append(["unsubscribe", r0, list(req), p, None])
+            elif u < 0.8:
+                ops.append(["unsubscribe", r0, list(req), p, RC.gen_value(rng, 4)])
+            else:
+                ops.append(["subscribe", r0, list(req), p, RC.gen_value(rng, 4)])
+                where.append((r0, list(req), p))
+            ops.append(list(q))
+            if rq != r0 and rng.random() < 0.5:
+                ops.append(["subscriptions", r0, list(q[2]), q[3]])
         elif k == "unsubscribe":
             if keys and rng.random() < 0.85:
                 req, p = rng.choice(keys)
